@@ -43,7 +43,8 @@ CONSTANTS
     Modes,          \* subset of {"tx", "pre"}: block execution / RPC pre-execution
     Apis,           \* subset of {"new", "legacy"}: legacy = height < CONTRACT_DEPRECATE_API_HEIGHT (ServiceMapDeprecated)
     ContractView,   \* table read by Blockchain.GetContract: "committed" (ledger store, as coded) or "cache"
-    NilOnAbsent     \* named deviation: producers that push a handle to nothing instead of failing
+    NilOnAbsent,    \* named deviation: producers that push a handle to nothing instead of failing
+    LedgerOnce      \* TRUE: the producers that do not depend on the contract table are explored in the initial world only
 
 VARIABLES mode, api, world, top, status, act
 vars == <<mode, api, world, top, status, act>>
@@ -68,11 +69,19 @@ TypeOK == /\ mode \in Modes /\ api \in Apis
           /\ top \in Items
           /\ status \in {"run", "halt", "fault", "crash"}
 
+InitWorld == [c \in Contracts |-> IF Committed(c) THEN "live" ELSE "absent"]
+
 Init == /\ mode \in Modes /\ api \in Apis
-        /\ world = [c \in Contracts |-> IF Committed(c) THEN "live" ELSE "absent"]
+        /\ world = InitWorld
         /\ top = Empty
         /\ status = "run"
         /\ act = [name |-> "Init", arg |-> "-"]
+
+\* guard of the producers whose result does not depend on `world` (ledger look-ups, script container, storage
+\* contexts): exploring them once, in the initial world, loses no transition of theirs
+Indep == LedgerOnce => world = InitWorld
+\* the same for the operations on ONE contract: they read and write world[c] only
+Only(c) == LedgerOnce => \A o \in Contracts \ {c} : world[o] = InitWorld[o]
 
 -----------------------------------------------------------------------------
 (* outcomes of one step *)
@@ -103,55 +112,55 @@ HashTargets == {"xpresent", "xabsent", "bad"}
 Stored(t) == t \in {"hpresent", "xpresent"}
 
 GetHeader(t) ==
-    /\ status = "run" /\ top = Empty /\ Named("GetHeader", t)
+    /\ status = "run" /\ top = Empty /\ Indep /\ Named("GetHeader", t)
     /\ IF Legacy THEN (IF t = "bad" THEN Fault ELSE Produce("GetHeader", Stored(t), "header", "-"))
        ELSE (IF t = "cur" THEN Go(H("hvalue", "-", TRUE), world) ELSE Fault)    \* BlockChainGetHeaderNew: current header only
 
 GetBlock(t) ==
-    /\ status = "run" /\ top = Empty /\ Named("GetBlock", t)
+    /\ status = "run" /\ top = Empty /\ Indep /\ Named("GetBlock", t)
     /\ IF Legacy THEN (IF t = "bad" THEN Fault ELSE Produce("GetBlock", Stored(t), "block", "-"))
        ELSE Fault                                                                \* service not supported
 
 GetTransaction(t) ==
-    /\ status = "run" /\ top = Empty /\ Named("GetTransaction", t)
+    /\ status = "run" /\ top = Empty /\ Indep /\ Named("GetTransaction", t)
     /\ IF Legacy THEN (IF t = "bad" THEN Fault ELSE Produce("GetTransaction", Stored(t), "tx", "-"))
        ELSE Fault
 
 GetTransactionHeight(t) ==          \* same look-up, pushes an integer
-    /\ status = "run" /\ top = Empty /\ Named("GetTransactionHeight", t)
+    /\ status = "run" /\ top = Empty /\ Indep /\ Named("GetTransactionHeight", t)
     /\ IF Legacy /\ Stored(t) THEN Go(Plain, world) ELSE Fault
 
 ContractTargets == Contracts \cup {"never", "bad"}
 Found(c) == /\ c \in Contracts
             /\ IF ContractView = "committed" THEN Committed(c) ELSE world[c] = "live"
 GetContract(c) ==
-    /\ status = "run" /\ top = Empty /\ Named("GetContract", c)
+    /\ status = "run" /\ top = Empty /\ Only(c) /\ Named("GetContract", c)
     /\ IF c = "bad" THEN Fault ELSE Produce("GetContract", Found(c), "contract", c)
 
 GetScriptContainer ==
-    /\ status = "run" /\ top = Empty /\ Named("GetScriptContainer", "-")
+    /\ status = "run" /\ top = Empty /\ Indep /\ Named("GetScriptContainer", "-")
     /\ Go(H("tx", "-", TRUE), world)
 
 GetContext(ro) ==
-    /\ status = "run" /\ top = Empty /\ Named("GetContext", ro)
+    /\ status = "run" /\ top = Empty /\ Indep /\ Named("GetContext", ro)
     /\ Go(H(IF ro = "ro" THEN "sctxro" ELSE "sctx", "-", TRUE), world)
 
 \* Ontology.Contract.Create: deploys, or returns the deployed contract; a destroyed address cannot be reused
 Create(c) ==
-    /\ status = "run" /\ top = Empty /\ Named("Create", c)
+    /\ status = "run" /\ top = Empty /\ Only(c) /\ Named("Create", c)
     /\ CASE world[c] = "absent" -> Go(H("contract", c, TRUE), [world EXCEPT ![c] = "live"])
          [] world[c] = "live" -> Go(H("contract", c, TRUE), world)
          [] OTHER -> Produce("Create", FALSE, "contract", c)
 
 \* Ontology.Contract.Migrate (from the entry script): the new address must be unused
 Migrate(c) ==
-    /\ status = "run" /\ top = Empty /\ Named("Migrate", c)
+    /\ status = "run" /\ top = Empty /\ Only(c) /\ Named("Migrate", c)
     /\ IF world[c] = "absent" THEN Go(H("contract", c, TRUE), [world EXCEPT ![c] = "live"]) ELSE Fault
 
 \* APPCALL c: the contract destroys itself.  Destroyed addresses are only remembered from
 \* BLOCKHEIGHT_TRACK_DESTROYED_CONTRACT on, which lies above the legacy API range.
 AppCall(c) ==
-    /\ status = "run" /\ top = Empty /\ Named("AppCall", c)
+    /\ status = "run" /\ top = Empty /\ Only(c) /\ Named("AppCall", c)
     /\ IF c \in Contracts /\ world[c] = "live"
        THEN Go(Empty, [world EXCEPT ![c] = IF Legacy THEN "absent" ELSE "destroyed"])
        ELSE Fault
@@ -241,8 +250,8 @@ ArraySize ==
 Not ==                               \* AsBool: an interop item is TRUE, an array is a type error
     /\ status = "run" /\ top # Empty /\ Named("Not", "-")
     /\ IF top.t = "arr" THEN Fault ELSE Go(Plain, world)
-NativeArg ==                         \* the item as argument of Ontology.Native.Invoke(ont.transfer): never a valid argument
-    /\ status = "run" /\ top # Empty /\ Named("NativeArg", "-")
+NativeArg ==                         \* the handle as argument of Ontology.Native.Invoke(ont.transfer): BuildParamToNative refuses it
+    /\ status = "run" /\ top.t \in {"h", "arr"} /\ Named("NativeArg", "-")
     /\ Fault
 CheckWitness ==                      \* PopAsBytes; one byte is no address / public key
     /\ status = "run" /\ top # Empty /\ Named("CheckWitness", "-")
